@@ -144,13 +144,13 @@ CHECKS = {
     "C10": dict(
         technique="Lean 4 proof (expand_entries = rewrite under the wider kind, writer entry = loader entry layout; case analysis over all kind triples and width residues) + exhaustive state-order differential + whole FST files written from abstract designs + corpus VCD/FST pairs",
         text="Lean theorems C10_expand_is_rewrite (an entry written under a narrower maximum, once widened, is byte for byte the entry written under the wider kind: order independence of 2/4/9-state values), "
-             "C10_writer_uses_entry_layout, C10_writer_entry (entry round trip). The real SignalWriter (hook) is driven with every sequence of value kinds of length <= 4 at widths 1..24 and random histories "
+             "C10_writer_uses_entry_layout, C10_writer_entry (entry round trip), C10_timescale (for every exponent -15..0 the reported factor x unit is the file's tick). The real SignalWriter (hook) is driven with every sequence of value kinds of length <= 4 at widths 1..24 and random histories "
              "(release and debug-assertion builds) against the Lean model and canon of the callback history; every corpus x.vcd / x.vcd.fst pair is loaded through both paths and compared variable by variable.",
         design_ref="DESIGN.md section 5 / C10",
         note="The FST container (blocks, compression, hierarchy entries, time chain) is parsed by the fst-reader dependency: not modelled byte by byte. It is exercised with whole files written by gen/fst_writer.py "
              "(hierarchy entries with kinds / directions / ranges / alias handles, 1..n plain value-change blocks, snapshot as frame or records, packed / ASCII / 1-bit records, raw / zlib streams, exponent -15 / -12): the real loader's full dump "
              "must equal the Lean file-level model (callbacks -> SignalWriter model -> pointer-level builder) and the design's denotation; and with the 33 corpus pairs. Not generated: LZ4 / FastLZ streams, dynamic-alias block kinds, "
-             "variable-length strings, enum tables / source locators / VHDL type attributes (corpus only). convert_timescale is modelled; the generated files use exponents -15 and -12.",
+             "variable-length strings, enum tables / source locators / VHDL type attributes (corpus only). convert_timescale is modelled and proved (C10_timescale); the generated files use every exponent -15..0.",
     ),
     "C07": dict(
         technique="Lean 4 proof (refinement of the Waveform signal map to an abstract loaded-set by induction over operation sequences; load_signals = map over sorted distinct ids) + differential load/unload sequences",
